@@ -129,8 +129,53 @@ def run_globs(spec):
             'classes': ['glob_declarers'], 'summary': {'declarers': len(spec['decls']), 'children': len(spec['children'])}}
 
 
+def run_nested_glob(spec):
+    """A glob store (agents) whose children hold a second glob store (bulk): a child of the lower store that
+    a process declares without a default of its own gets the lower glob's declared default."""
+    from vivarium.core.engine import Engine
+    from vivarium.core.composer import Composite
+    from vmon.sensors import plain_values
+    V = Viol()
+    Probe = make_probe(False)
+    d = spec['default']
+    procs = {'w': Probe({'schema': {'agents': {'*': {'m': {'_default': 1}}}}}), 'agents': {}}
+    tops = {'w': {'agents': ('agents',)}, 'agents': {}}
+    for a in spec['agents']:
+        procs['agents'][a] = {'lower': Probe({'schema': {'bulk': {'*': {'_default': d}}}}),
+                              'named': Probe({'schema': {'bulk': {v: {'_emit': True} for v in spec['vars']}}})}
+        tops['agents'][a] = {'lower': {'bulk': ('bulk',)}, 'named': {'bulk': ('bulk',)}}
+        if spec['order']:
+            procs['agents'][a] = dict(reversed(list(procs['agents'][a].items())))
+    for mode in ('parts', 'composite', 'store'):
+        try:
+            if mode == 'parts':
+                e = Engine(processes=copy.copy(procs), topology=copy.deepcopy(tops), display_info=False, emitter='null')
+            elif mode == 'composite':
+                e = Engine(composite=Composite({'processes': copy.copy(procs), 'topology': copy.deepcopy(tops)}),
+                           display_info=False, emitter='null')
+            else:
+                e = Engine(store=Composite({'processes': copy.copy(procs), 'topology': copy.deepcopy(tops)}).generate_store({}),
+                           display_info=False, emitter='null')
+        except Exception as ex:
+            V.check('glob_children', False, ('construction through %s raised' % mode, type(ex).__name__, str(ex)[:200]))
+            continue
+        got = flat(plain_values(e.state.get_value()))
+        for a in spec['agents']:
+            V.check('default_value', _same(got.get(('agents', a, 'm')), 1),
+                    lambda: ('agents/%s/m: expected the glob default 1, built with %r (%s)' % (a, got.get(('agents', a, 'm')), mode)))
+            for v in spec['vars']:
+                V.check('default_value', _same(got.get(('agents', a, 'bulk', v)), d),
+                        lambda: ('agents/%s/bulk/%s is declared without a default under a glob store declaring %r: built with %r (%s)' % (
+                            a, v, d, got.get(('agents', a, 'bulk', v)), mode)))
+    return {'viol': list(V), 'evals': V.evals, 'nontrivial': True, 'classes': ['nested_glob'], 'summary': {'agents': len(spec['agents'])}}
+
+
 def gen(r, tier, i):
-    if r.random() < 0.15:
+    k = r.random()
+    if k < 0.03:
+        return {'family': 'nested_glob', 'default': r.choice([0.5, 0, 7, False]), 'agents': ['a%d' % j for j in range(r.randint(1, 3))],
+                'vars': r.sample(['glc', 'atp', 'x'], r.randint(1, 3)), 'order': r.random() < 0.5}
+    if k < 0.18:
         return gen_globs(r)
     case = topo.gen_case(r, maxports=4, allow_collisions=r.random() < 0.5)
     given = []
@@ -172,6 +217,8 @@ def _same(a, b):
 def run(spec):
     if spec.get('family') == 'globs':
         return run_globs(spec)
+    if spec.get('family') == 'nested_glob':
+        return run_nested_glob(spec)
     from vivarium.core.engine import Engine
     from vivarium.core.composer import Composite
     from vivarium.core.store import Store
